@@ -631,11 +631,17 @@ static const char* PLANTED[] = {
 };
 static const int NPLANTED = 12;
 
-static void batch(uint64_t seed, long b, long cases) {
+// shared with the parent: index of the case being executed (so that a batch is resumed after a crash)
+static volatile long* g_progress = 0;
+
+static void batch(uint64_t seed, long b, long cases, long resume_after) {
   Rng r(seed * 1000003ull + (uint64_t)b * 7919ull + 17);
-  { OS o; o << "batch " << b << " seed " << seed; J.line(o.str()); }
+  if (resume_after < -1) { OS o; o << "batch " << b << " seed " << seed; J.line(o.str()); }
   if (b == 0) {
     for (int i = 0; i < NPLANTED; ++i) {
+      long idx = i - NPLANTED;                         // planted cases have negative indexes
+      if (idx <= resume_after) continue;
+      if (g_progress) *g_progress = idx;
       OS id; id << "p" << i;
       try { Case c = parse_case(PLANTED[i]); dispatch(c, id.str()); }
       catch (...) { J.line("skip " + id.str() + " bad-planted-case"); }
@@ -645,17 +651,53 @@ static void batch(uint64_t seed, long b, long cases) {
     OS id; id << "b" << b << "c" << i;
     std::string dom = DOMS[(i + b) % NDOMS];
     unsigned k = r.below(10);
+    // the case is always generated (the stream of random choices does not depend on the resume point)
     Case c = k < 6 ? rnd_wrap_case(r, dom) : k < 8 ? rnd_small_case(r, dom, 'D') : rnd_small_case(r, dom, 'Q');
+    if (i <= resume_after) continue;
+    if (g_progress) *g_progress = i;
     dispatch(c, id.str());
   }
   J.line("end");
 }
 
+// like pplv::run_batches, but a batch whose child died is resumed after the case that killed it
+#include <sys/mman.h>
+template <typename F>
+static int run_resumable(long first, long last, F body, int cpu_limit_s) {
+  g_progress = (volatile long*)mmap(0, sizeof(long), PROT_READ | PROT_WRITE, MAP_SHARED | MAP_ANONYMOUS, -1, 0);
+  if (g_progress == MAP_FAILED) { perror("mmap"); return 2; }
+  for (long b = first; b < last; ++b) {
+    long resume_after = -1000000;                      // below every index: a fresh batch
+    for (int attempt = 0; attempt < 50; ++attempt) {
+      *g_progress = resume_after;
+      fflush(stdout);
+      pid_t pid = fork();
+      if (pid < 0) { perror("fork"); return 2; }
+      if (pid == 0) {
+        struct rlimit rl; rl.rlim_cur = (rlim_t)cpu_limit_s; rl.rlim_max = (rlim_t)cpu_limit_s + 2;
+        setrlimit(RLIMIT_CPU, &rl);
+        struct rlimit core; core.rlim_cur = core.rlim_max = 0; setrlimit(RLIMIT_CORE, &core);
+        body(b, resume_after);
+        fflush(stdout);
+        _exit(0);
+      }
+      int st = 0;
+      waitpid(pid, &st, 0);
+      if (WIFSIGNALED(st)) J.line(std::string("crash ") + pplv::signal_name(WTERMSIG(st)));
+      else if (WIFEXITED(st) && WEXITSTATUS(st) != 0) J.line("crash exit " + std::to_string(WEXITSTATUS(st)));
+      else break;
+      resume_after = *g_progress;                      // skip the case that killed the child
+    }
+  }
+  return 0;
+}
+
 int main(int argc, char** argv) {
   bool replay = false;
   for (int i = 1; i < argc; ++i) if (!strcmp(argv[i], "--replay")) replay = true;
+  long cpu = pplv::arg_long(argc, argv, "--cpu", 20);
   if (replay) {
-    std::string line; long k = 0;
+    std::string line;
     std::vector<std::string> lines;
     while (std::getline(std::cin, line)) if (!line.empty()) lines.push_back(line);
     return pplv::run_batches(0, (long)lines.size(), [&](long b) {
@@ -663,10 +705,10 @@ int main(int argc, char** argv) {
       try { Case c = parse_case(lines[b]); dispatch(c, id.str()); }
       catch (...) { J.line("skip " + id.str() + " bad-description"); }
       J.line("end");
-    }, 60);
+    }, (int)cpu);
   }
   uint64_t seed = (uint64_t)pplv::arg_long(argc, argv, "--seed", 1);
   long first = pplv::arg_long(argc, argv, "--first", 0), last = pplv::arg_long(argc, argv, "--last", 4);
   long cases = pplv::arg_long(argc, argv, "--cases", 60);
-  return pplv::run_batches(first, last, [&](long b) { batch(seed, b, cases); }, 120);
+  return run_resumable(first, last, [&](long b, long resume_after) { batch(seed, b, cases, resume_after); }, (int)cpu);
 }
